@@ -100,6 +100,7 @@ def body(e, L, cfg):
     # history: a second call must not rewrite the table handed out by the first one, and must behave in the same way
     first = [zint(x) for x in es]
     ncalls = len(calls)
+    keep = t.copy()
     try:
         t2 = L.create_random_shuffles(k, SymInt(seed), bool(cfg.get("verbose")))
     except core.Abort:
@@ -112,7 +113,7 @@ def body(e, L, cfg):
     if r == "sat":
         return {"status": "viol", "why": "the table returned by the first call was rewritten by the second call", "cex": cex(m)}
     calls2 = rnd.calls[ncalls:]
-    if len(calls2) != N + 2 or calls2[0][0] != "seed" or calls2[-1] != ("seed", None) or t2 is t:
+    if len(calls2) != N + 2 or calls2[0][0] != "seed" or calls2[-1] != ("seed", None) or t2 is t or t2.buf is t.buf:
         r, m = e.check()
         return {"status": "viol", "why": "second call does not repeat the seed / shuffle / reseed sequence on a table of its own", "cex": cex(m)}
     mm = e._ensure_model()
